@@ -98,6 +98,11 @@ CHECKS.update({
             'the operation sequence (create/write/close/rename/remove) is recorded and TLC checks AtomicDest after every operation and SuccessPublishes/FailureKeepsOld at the end; the model of the file system is bound '
             'to the real one by really killing a forked child after each operation',
             'trusted: TLC, vf/fsrec.py (wraps tempfile/open/os.rename/os.remove in the harness process), same-file-system staging directory; power loss (unsynced data) out of scope', 'DESIGN.md 5/C17'),
+    'C19': ('TLA+ specs Logs.tla (routing by logger name/uid over start/end/log histories, redaction table) and LogsWalk.tla (handler-list walk vs removal) checked by TLC; emitted histories replayed on the real logs functions; real handler removal explored against a concurrent log call by preemption-bounded DFS',
+            'every history of <=5 start/end/log operations over two prefix-related uids and 10 logger names (100 000 histories) is replayed with real TestRecords and the real handler/filter/loggers: messages captured per run '
+            '(once, in order, no foreign), record fields, handler count after every operation; LogsWalk: copy-on-write holds, in-place removal loses the message (TLC) and the real remove_record_handler is explored with '
+            'logging\'s own locks as scheduling points; two concurrent whole runs under random schedules; 11 message/argument shapes through the real redaction filter',
+            'trusted: TLC, vf/sched.py (logging locks as scheduling points), the uid concretisation (no dots, as make_uid produces)', 'DESIGN.md 5/C19'),
 })
 
 NOT_APPLICABLE = {
